@@ -120,6 +120,10 @@ func (d *DeviceRemote) Entities() []api.EntityRemoteInterface {
 
 // Return the feature for a given address
 func (d *DeviceRemote) FeatureByAddress(address *model.FeatureAddressType) api.FeatureRemoteInterface {
+	if address == nil {
+		return nil
+	}
+
 	entity := d.Entity(address.Entity)
 	if entity != nil {
 		return entity.FeatureOfAddress(address.Feature)
